@@ -200,6 +200,17 @@ func ruleC06R2(r *Run, le *LockEngine) {
 						reg, regSite, regKey, regFn = mu, ins, c.Call.Args[i], cf
 					}
 				}
+				// or the helper computes the key itself as GetRequestID() of the request it is handed, and that request
+				// is the one sendRequest writes
+				if kc, isCall := mu.Key.(*ssa.Call); isCall && reg == nil && kc.Call.IsInvoke() && kc.Call.Method.Name() == "GetRequestID" {
+					for i, prm := range cf.Params {
+						if canonVal(kc.Call.Value) == ssa.Value(prm) && i < len(c.Call.Args) {
+							if _, isReqParam := canonVal(c.Call.Args[i]).(*ssa.Parameter); isReqParam {
+								reg, regSite, regKey, regFn = mu, ins, mu.Key, cf
+							}
+						}
+					}
+				}
 			}
 		})
 	}
@@ -277,6 +288,10 @@ func ruleC06R3(r *Run, le *LockEngine) {
 		}
 	})
 	if snd == nil {
+		// lookup and delete live in a helper that hands the channel back ("takeReply"): the delivery is at its caller
+		if ruleC06R3ViaHelper(r, le, router, lk, del, m1) {
+			return
+		}
 		r.Check(name+" delivers", false, p.pos(router.Pos()), name, "no send on the looked-up reply channel")
 		return
 	}
@@ -303,6 +318,115 @@ func ruleC06R3(r *Run, le *LockEngine) {
 	r.Check(name+" delivers outside the lock", !held, posOf(p, snd), name, fmt.Sprintf("locks held at the delivery: %v", h))
 }
 
+// ruleC06R3ViaHelper: the lookup and the delete sit in helper h, which returns the looked-up channel (and a found flag);
+// the send is in a caller. The same three facts are established across the call: the helper returns the channel only
+// after the delete and only on the found edge, reports "found" truthfully, and the caller sends the very message whose
+// id keyed the lookup, on the found edge of the helper's flag, without the table lock.
+func ruleC06R3ViaHelper(r *Run, le *LockEngine, h *ssa.Function, lk *ssa.Lookup, del *ssa.Call, msgInHelper ssa.Value) bool {
+	p := r.P
+	prmIdx := -1
+	for i, prm := range h.Params {
+		if msgInHelper == ssa.Value(prm) {
+			prmIdx = i
+		}
+	}
+	if prmIdx < 0 || !lk.CommaOk || lk.Referrers() == nil {
+		return false
+	}
+	var lkVal, lkOk ssa.Value
+	for _, ref := range *lk.Referrers() {
+		if ex, isEx := ref.(*ssa.Extract); isEx {
+			if ex.Index == 0 {
+				lkVal = ex
+			} else {
+				lkOk = ex
+			}
+		}
+	}
+	if lkVal == nil || lkOk == nil {
+		return false
+	}
+	// the helper's returns: the channel result is the looked-up value only after the delete on the found edge; otherwise nil
+	chIdx, flagIdx := -1, -1
+	okHelper := true
+	allInstrs(h, func(ins ssa.Instruction) {
+		ret, isRet := ins.(*ssa.Return)
+		if !isRet {
+			return
+		}
+		for j, rv := range retResults(ret) {
+			if canonVal(rv) == lkVal || rv == lkVal {
+				chIdx = j
+				if !dominatesInstr(del, ret) || !condTrueDominates(h, lkOk, ret) {
+					okHelper = false
+				}
+			}
+		}
+	})
+	if chIdx < 0 {
+		return false
+	}
+	allInstrs(h, func(ins ssa.Instruction) {
+		ret, isRet := ins.(*ssa.Return)
+		if !isRet {
+			return
+		}
+		rs := retResults(ret)
+		for j, rv := range rs {
+			if j == chIdx {
+				continue
+			}
+			if k, isK := rv.(*ssa.Const); isK && k.Value != nil && types.Identical(k.Type().Underlying(), types.Typ[types.Bool]) {
+				flagIdx = j
+				found := canonVal(rs[chIdx]) == lkVal || rs[chIdx] == lkVal
+				if (k.Value.String() == "true") != found {
+					okHelper = false // the flag must say "found" exactly when the channel is handed back
+				}
+			} else if rv == lkOk {
+				flagIdx = j
+			}
+		}
+	})
+	n := 0
+	for _, site := range p.staticCallSites(h) {
+		call, isCall := site.(*ssa.Call)
+		if !isCall || call.Referrers() == nil {
+			continue
+		}
+		s := call.Parent()
+		var chRes, flagRes ssa.Value
+		for _, ref := range *call.Referrers() {
+			if ex, isEx := ref.(*ssa.Extract); isEx {
+				if ex.Index == chIdx {
+					chRes = ex
+				}
+				if ex.Index == flagIdx {
+					flagRes = ex
+				}
+			}
+		}
+		if chRes == nil {
+			continue
+		}
+		allInstrs(s, func(ins ssa.Instruction) {
+			snd, isSnd := ins.(*ssa.Send)
+			if !isSnd || canonVal(snd.Chan) != chRes {
+				return
+			}
+			n++
+			name := fnName(s)
+			okMsg := prmIdx < len(call.Call.Args) && canonVal(snd.X) == canonVal(call.Call.Args[prmIdx])
+			okFound := flagRes != nil && condTrueDominates(s, flagRes, snd)
+			r.Check(name+" delivers the routed message after the delete on the found edge", okMsg && okHelper && okFound, posOf(p, snd), name,
+				fmt.Sprintf("delivered value is the message handed to %s: %v; the helper returns the channel only after the delete, on the found edge, with a truthful flag: %v; send only on the found edge of that flag: %v", fnName(h), okMsg, okHelper, okFound))
+			hd := le.HeldAt(snd)
+			_, held := hd[s.Params[0].Name()+".mu"]
+			r.Check(name+" delivers outside the lock", !held, posOf(p, snd), name, fmt.Sprintf("locks held at the delivery: %v", hd))
+		})
+	}
+	return n > 0
+}
+
 // chanCapOK: every channel value that can be stored (map update) into the table field has capacity >= 1.
 func chanCapRule(r *Run, table string, minFloor int) {
 	p := r.P
@@ -319,17 +443,22 @@ func chanCapRule(r *Run, table string, minFloor int) {
 			}
 			n++
 			name := fnName(fn)
-			v := canonVal(mu.Value)
-			if ct, isCT := v.(*ssa.ChangeType); isCT {
-				v = canonVal(ct.X)
-			}
-			mc, isMk := v.(*ssa.MakeChan)
-			okCap := false
-			detail := "stored channel is not created here: " + v.String()
-			if isMk {
+			// the stored channel, or — when the store sits in a registration helper — the channels its callers hand in
+			origins, complete := p.originsThroughParams(mu.Value, 0)
+			okCap := complete && len(origins) > 0
+			detail := ""
+			for _, v := range origins {
+				mc, isMk := v.(*ssa.MakeChan)
+				if !isMk {
+					okCap = false
+					detail += "stored channel is not created by the caller: " + v.String() + "; "
+					continue
+				}
 				k, isK := constInt(mc.Size)
-				okCap = isK && k >= 1
-				detail = fmt.Sprintf("make(chan, %v)", mc.Size)
+				if !(isK && k >= 1) {
+					okCap = false
+				}
+				detail += fmt.Sprintf("make(chan, %v); ", mc.Size)
 			}
 			r.Check(name+" "+table+" capacity", okCap, posOf(p, mu), name, "channel stored into "+table+": "+detail+"; the single dispatcher delivers with a plain send, so an unbuffered channel whose waiter left blocks every other caller")
 		})
